@@ -980,6 +980,14 @@ class StmtMixin(ContractMixin):
                         else:
                             items[i] = (kk, self.apply_to_h(st, vv, rest, ef, binders, k, s))
                         return HPyDict(items, cur.default)
+            if isinstance(cur, HListC):
+                it = self.as_int(x)
+                child = subst(cur.elem, [(cur.binder, it)])
+                if not rest:
+                    newchild = self.const_cell_update(st, child, ef, binders)
+                else:
+                    newchild = self.apply_to_h(st, child, rest, ef, binders, k, s)
+                return HListC(cur.length, cur.binder, self.v_ite(cur.binder == it, newchild, cur.elem), cur.elem_ty)
             raise Unsupported("effect on a loop-constant cell of this container kind")
         if isinstance(cur, HPyDict):
             if cur.items:
@@ -994,6 +1002,10 @@ class StmtMixin(ContractMixin):
                 if isinstance(v0, VRef):
                     v0 = self.resolve(st, v0)
                 cur = HDict(kty, b, z3.BoolVal(False), v0, cur.default, None)
+        as_list = None
+        if isinstance(cur, HListC):
+            as_list = cur
+            cur = HDict(TInt(), cur.binder, z3.And(0 <= cur.binder, cur.binder < cur.length), cur.elem, None, cur.elem_ty)
         if not isinstance(cur, HDict):
             raise Unsupported(f"summarised write into {type(cur).__name__}")
         xx, pairs, resid, und = self.invert_key(st, binders, x, cur.kty, partial=True)
@@ -1002,9 +1014,19 @@ class StmtMixin(ContractMixin):
         def inst(t):
             t = z3.substitute(t, *pairs) if pairs else t
             return z3.substitute(t, (xx, y))
+        if rest:
+            # nested cell: peel the binders this key determines and descend into the value template
+            sub = Effect(ef.kind, ef.root, rest, subst(subst(self.force_v(st, ef.value), pairs), [(xx, y)]), inst(t_and(ef.guard, resid)), (), where=ef.where)
+            sub_path = [(kk, subst(subst(xv, pairs), [(xx, y)]) if isinstance(xv, V) else xv) for kk, xv in rest]
+            child = cur.val
+            if cur.default is not None:
+                child = self.v_ite(cur.dom, cur.val, self.default_h(cur))
+            newchild = self.apply_to_h(st, child, sub_path, sub, list(und), k, s)
+            res = HDict(cur.kty, cur.binder, cur.dom, newchild, cur.default, cur.vty)
+            if as_list is not None:
+                return HListC(as_list.length, as_list.binder, newchild, as_list.elem_ty)
+            return res
         if ef.kind == "add":
-            if rest:
-                raise Unsupported("nested accumulation")
             d = self.force(st, ef.value)
             g1 = inst(t_and(ef.guard, resid))
             dv = subst(subst(d, pairs), [(xx, y)])
@@ -1018,11 +1040,13 @@ class StmtMixin(ContractMixin):
                 newdom = t_or(cur.dom, self.exists(und, g1))
             else:
                 newdom = cur.dom
+            if as_list is not None:
+                return HListC(as_list.length, as_list.binder, self.binop(st, ast.Add(), oldv, contrib), as_list.elem_ty)
             return HDict(cur.kty, cur.binder, newdom, self.binop(st, ast.Add(), oldv, contrib), cur.default, cur.vty)
         # set
         body = inst(t_and(ef.guard, resid))
-        if rest:
-            raise Unsupported("nested summarised write below a keyed step")
+        if as_list is not None:
+            raise Unsupported("summarised assignment to list cells")
         val = self.force(st, ef.value)
         if isinstance(val, VRef):
             val = self.resolve(st, val)
@@ -1054,6 +1078,12 @@ class StmtMixin(ContractMixin):
             hit = z3.simplify(body)
         newval = nv if cur.val is None else self.v_ite(hit, nv, cur.val)
         return HDict(cur.kty, cur.binder, z3.simplify(t_or(cur.dom, hit)), newval, cur.default, cur.vty)
+
+    def force_v(self, st, v):
+        v = self.force(st, v)
+        if isinstance(v, VRef):
+            return self.resolve(st, v)
+        return v
 
     def v_scale(self, st, g, v):
         if isinstance(v, VLin):
